@@ -446,6 +446,11 @@ func c07GenCase(c *Case, group string, cat *c07Catalogue, nShifts int) {
 	c.SetAdd("kind_x_style", base.kind+"|"+base.styleName())
 	c.SetAdd("indentation_of_line", fmt.Sprint(c07LineIndent(base.src, base.target.pos.Line)))
 	c.SetAdd("nesting_depth", fmt.Sprint(base.depth))
+	for k := range base.info {
+		if strings.HasPrefix(k, "sub:") {
+			c.SetAdd("sub_node_anchors", k[4:])
+		}
+	}
 	if base.mode == "emb" {
 		c.SetAdd("earlier_placeholders", fmt.Sprint(base.info["ph"]))
 		c.SetAdd("text_before", fmt.Sprint(base.info["text"]))
@@ -955,7 +960,7 @@ func runC07(r *Run) {
 	if r.Counter("shifts_compared") < compared*2 {
 		r.Inconclusive(fmt.Sprintf("only %d shifts compared for %d cases", r.Counter("shifts_compared"), compared))
 	}
-	for _, k := range []string{"lexer", "lexer-eof", "parser", "sema-var", "sema-func", "sema-prop", "sema-type", "avail", "untrusted", "template", "unexpected-key", "duplicate-key", "shell-name", "runner-label", "permission-value", "event-type", "id-convention", "cron", "glob"} {
+	for _, k := range []string{"lexer", "lexer-eof", "parser", "sema-var", "sema-func", "sema-prop", "sema-type", "sema-arg", "sema-sub", "avail", "untrusted", "template", "unexpected-key", "duplicate-key", "shell-name", "runner-label", "permission-value", "event-type", "id-convention", "cron", "glob"} {
 		for _, st := range []string{"plain", "single", "double"} {
 			if k == "lexer-eof" && st == "single" {
 				continue // the unterminated literal needs an apostrophe, which a single-quoted scalar cannot hold without an escape
@@ -992,6 +997,14 @@ func runC07(r *Run) {
 	for _, gs := range []string{"glob/ref/negated/ref name must not start with /", "glob/ref/ref name must not start with /", "glob/ref/negated/at least one character must follow", "glob/path/negated/at least one character must follow", "glob/ref/character '\\t' is invalid for bran"} {
 		if !r.SetHas("sites", gs) {
 			r.Inconclusive("glob position class never compared: " + gs)
+		}
+	}
+	for _, sn := range []string{"sema-arg:startsWith/1", "sema-arg:startsWith/2", "sema-arg:endsWith/1", "sema-arg:endsWith/2", "sema-arg:fromJSON/1", "sema-arg:format/1", "sema-arg:contains/1", "sema-arg:contains/2", "sema-arg:join/1", "sema-arg:join/2",
+		"sema-arg:hashFiles/1", "sema-arg:hashFiles/rest2", "sema-arg:hashFiles/rest3", "sema-arg:hashFiles/rest4", "sema-arg:hashFiles/rest5",
+		"sema-sub:in-arg/2", "sema-sub:in-arg/3", "sema-sub:operand/2", "sema-sub:operand/3", "sema-sub:compare/1", "sema-sub:compare/2", "sema-sub:compare/3", "sema-sub:index/short", "sema-sub:index/long",
+		"untrusted:in-arg/2", "untrusted:in-arg/3", "untrusted:operand/2", "avail:in-arg/3"} {
+		if !r.SetHas("sub_node_anchors", sn) {
+			r.Inconclusive("no compared case with a diagnostic anchored at sub-node " + sn)
 		}
 	}
 	for n := 0; n <= 3; n++ {
